@@ -1,3 +1,4 @@
 import BalmProofs.Props.C19
 #print axioms Balm.KeyBits.key_injective
 #print axioms Balm.Drivers.findDrivers_spec
+#print axioms Balm.Impl.percStrict_order_independent
